@@ -92,7 +92,7 @@ func Unordered(kind string) bool {
 type Cfg struct {
 	Elem  string `json:"elem,omitempty"` // "" = int elements (type E), "float" = float64 elements (type F) and default constructors
 	Kind  string `json:"kind"`
-	Cmp   string `json:"cmp,omitempty"`   // nat | rev (comparator kinds)
+	Cmp   string `json:"cmp,omitempty"`   // nat | rev | mag | revmag (comparator kinds)
 	Cap   int    `json:"cap,omitempty"`   // ring capacity (>= 1)
 	Order int    `json:"order,omitempty"` // B-tree order (>= 3)
 }
@@ -104,9 +104,22 @@ var (
 	revE = func(a, b E) int { return cmp.Compare(b, a) }
 )
 
+// magE / revMagE: the natural and the reversed order, returned as magnitudes
+// (2..301, including values >= 128 and 256) instead of -1/0/+1; overflow-free for
+// every pair of elements.
+var (
+	magE    = func(a, b E) int { return cmp.Compare(a, b) * (2 + int(uint64(a^b)%300)) }
+	revMagE = func(a, b E) int { return cmp.Compare(b, a) * (2 + int(uint64(a^b)%300)) }
+)
+
 func cmpE(id string) func(a, b E) int {
-	if id == dom.Rev {
+	switch id {
+	case dom.Rev:
 		return revE
+	case dom.Mag:
+		return magE
+	case "revmag":
+		return revMagE
 	}
 	return natE
 }
@@ -439,7 +452,13 @@ func (r *Runner) norm1(method string, v reflect.Value) any {
 				xs[i] = v.Index(i).Float()
 			}
 			if unordered {
-				sort.Slice(xs, func(i, j int) bool { return cmp.Compare(xs[i], xs[j]) < 0 })
+				// cmp.Compare ties -0 with +0: break the tie by the sign bit (total order)
+				sort.Slice(xs, func(i, j int) bool {
+					if c := cmp.Compare(xs[i], xs[j]); c != 0 {
+						return c < 0
+					}
+					return math.Signbit(xs[i]) && !math.Signbit(xs[j])
+				})
 			}
 			return fmt.Sprint(xs)
 		}
@@ -468,6 +487,11 @@ func errClass(err error) string {
 	s := err.Error()
 	if i := strings.Index(s, " at offset"); i >= 0 {
 		s = s[:i]
+	}
+	// which of several unsupported values (NaN, +Inf, -Inf) an unordered container
+	// meets first depends on Go's map iteration order
+	if i := strings.Index(s, "unsupported value: "); i >= 0 {
+		s = s[:i] + "unsupported value"
 	}
 	return s
 }
